@@ -946,7 +946,7 @@ func (r *runner) block(w []string) string {
 		r.fail("roots-header-id-after-sign", "Sign leaves an ID that is not sha256 of the signed header")
 	}
 	hverr := h.Validate()
-	if refH := len(prev) == 32 && len(gen) == 20 && len(sig) == 64; (hverr == nil) != refH {
+	if refH := len(prev) == 32 && len(gen) == 20 && len(sig) == 64 && len(str) == 32; (hverr == nil) != refH {
 		r.fail("roots-header-validate", "Validate says %v, the length rules say %v", hverr, refH)
 	}
 	b := &blockchain.Block{Header: h, Transactions: r.txs, Assets: r.assets}
